@@ -47,6 +47,8 @@ impl ProgramLines {
         let mut chunks = vec![];
         for &line in self.sorted_line_numbers.iter() {
             for (token_index, token) in self.numbered_lines.get(&line).unwrap().iter().enumerate() {
+                #[cfg(feature = "verif-hooks")]
+                crate::verif_hooks::count_data_scan_token();
                 if let Token::Data(data) = token {
                     chunks.push(DataChunk::new(
                         NumberedProgramLocation::new(line, token_index).into(),
@@ -97,5 +99,19 @@ impl ProgramLines {
         }
 
         lines
+    }
+}
+
+#[cfg(feature = "verif-hooks")]
+impl ProgramLines {
+    pub(crate) fn verif_fill_snapshot(&self, snapshot: &mut crate::verif_hooks::Snapshot) {
+        let mut map_lines: Vec<u64> = self.numbered_lines.keys().copied().collect();
+        map_lines.sort();
+        snapshot.line_token_counts = map_lines
+            .iter()
+            .map(|line| (*line, self.numbered_lines.get(line).unwrap().len()))
+            .collect();
+        snapshot.map_lines = map_lines;
+        snapshot.set_lines = self.sorted_line_numbers.iter().copied().collect();
     }
 }
